@@ -10,6 +10,9 @@
 //     the yield point, and free-running concurrent rounds judged on logical ticks.
 //   - event (ev.go): concurrent Trigger/Hook/Unhook/LinkTo rounds with per-hook call
 //     logs (unique arguments), max-trigger-count rounds, pooled hooks.
+//   - trigger counting (ev_count.go, ev_arity.go): model-checked histories with triggers that
+//     arrive while no hook is attached and the exported counting queries, all arities;
+//     concurrent hookless/hooked phases and limit ladders.
 //   - promise (pr.go): callbacks registered before/during/after concurrent Triggers.
 //
 // All concurrent rounds run in a plain child and in a -race child; data races whose
@@ -74,6 +77,8 @@ func (r *reporter) viol(fp, what string, rep replayRec) {
 
 // ---------------------------------------------------------------- parent
 
+const evCountShards = 4
+
 var pkgs = []string{"hive.go/runtime/event.", "hive.go/runtime/promise.", "hive.go/runtime/valuenotifier."}
 
 func run(c *vf.Ctx) {
@@ -81,7 +86,7 @@ func run(c *vf.Ctx) {
 		replay(c)
 		return
 	}
-	c.SetRule("evaluations = oracle verdicts: one per executed valuenotifier history step that is a Wait (sequential enumeration: every history up to the tier's length over {Listener(v),Notify(v),Deregister(l),Wait(l)}, 2 values, <=3 listeners per value, each history executed on a fresh Notifier and only its last step judged, so every (history, step) pair is judged once), one per gated schedule, one per Wait of a concurrent notifier round, one per (Trigger, hook) pair of an event round (concurrent rounds and the deterministic single-goroutine scenarios in which a hook's callback unhooks itself / its successor / a later / an earlier hook, hooks a new one or re-links a linked event while the Trigger is walking the hooks – all combinations for 2..5 hooks, Event/Event1/Event2, with and without a hook whose WithMaxTriggerCount is exhausted in that Trigger), one per promise callback. distinct_nontrivial = distinct sequential histories whose judged step is a Wait on a listener that was created after a Notify of the same value (the re-created-listener pattern the repository test never builds) plus distinct concurrent round configurations (kind/goroutine counts/build) in which at least one pair of constrained operations overlapped on the logical clock")
+	c.SetRule("evaluations = oracle verdicts: one per executed valuenotifier history step that is a Wait (sequential enumeration: every history up to the tier's length over {Listener(v),Notify(v),Deregister(l),Wait(l)}, 2 values, <=3 listeners per value, each history executed on a fresh Notifier and only its last step judged, so every (history, step) pair is judged once), one per gated schedule, one per Wait of a concurrent notifier round, one per (Trigger, hook) pair of an event round (concurrent rounds and the deterministic single-goroutine scenarios in which a hook's callback unhooks itself / its successor / a later / an earlier hook, hooks a new one or re-links a linked event while the Trigger is walking the hooks – all combinations for 2..5 hooks, Event/Event1/Event2, with and without a hook whose WithMaxTriggerCount is exhausted in that Trigger), one per executed trigger-counting history (ev_count.go: histories over Hook/limited Hook on a target and a linked event, Unhook, Trigger of either, LinkTo/unlink, for events with and without WithMaxTriggerCount and all arities Event..Event9, every Trigger's delivered calls and after every step the exported TriggerCount/WasTriggered/MaxTriggerCount/MaxTriggerCountReached of both events and all hooks compared with a model that counts every Trigger call, also those made while no hook is attached; all histories up to the tier's length plus seeded longer ones), one per hook of a concurrent hookless/hooked phase round or limit ladder round, one per promise callback. distinct_nontrivial = distinct sequential histories whose judged step is a Wait on a listener that was created after a Notify of the same value (the re-created-listener pattern the repository test never builds) plus distinct concurrent round configurations (kind/goroutine counts/build) in which at least one pair of constrained operations overlapped on the logical clock")
 	maxLen := c.Pick(7, 8)
 	shards := 16
 	workers := runtime.NumCPU()
@@ -100,6 +105,9 @@ func run(c *vf.Ctx) {
 		jobs = append(jobs, job{vf.ChildOpts{Name: "vn-enum", Args: []string{strconv.Itoa(maxLen), strconv.Itoa(s), strconv.Itoa(shards)}, Timeout: 12 * time.Minute}})
 	}
 	jobs = append(jobs, job{vf.ChildOpts{Name: "vn-gate", Timeout: 5 * time.Minute}})
+	for s := 0; s < evCountShards; s++ {
+		jobs = append(jobs, job{vf.ChildOpts{Name: "ev-count", Args: []string{strconv.Itoa(s), strconv.Itoa(evCountShards)}, Timeout: 12 * time.Minute}})
+	}
 	for _, race := range []bool{false, true} {
 		for _, name := range []string{"vn-conc", "event", "promise"} {
 			parts := c.Pick(1, 3)
@@ -145,6 +153,11 @@ func run(c *vf.Ctx) {
 	c.Require("ev_trigger_hook_pairs_overlapping", 200)
 	c.Require("ev_link_triggers_overlapping_linkto", 20)
 	c.Require("ev_max_rounds", 50)
+	c.Require("ev_count_histories", 100000)
+	c.Require("ev_count_histories_limit_used_up_by_hookless_triggers", 5000)
+	c.Require("ev_count_query_checks", 1000000)
+	c.Require("ev_hookless_rounds_limit_used_up_by_hookless_triggers", 30)
+	c.Require("ev_rounds:max-ladder", 50)
 	c.Require("ev_reentrant_scenarios", 20000)
 	c.Require("ev_redundant_histories_with_redundant_unhook", 10000)
 	c.Require("pr_redundant_histories_with_repeated_unsubscribe", 1000)
@@ -181,6 +194,12 @@ func child(c *vf.Ctx) {
 		vnEnumChild(c, maxLen, shard, shards)
 	case "vn-gate":
 		vnGateChild(c, "")
+	case "ev-count":
+		shard, _ := strconv.Atoi(c.ChildArgs[0])
+		shards, _ := strconv.Atoi(c.ChildArgs[1])
+		env := &evEnv{c: c, rep: newReporter(c)}
+		env.countEnumShard(shard, shards)
+		env.countRandShard(shard, shards)
 	case "vn-conc", "event", "promise":
 		part, _ := strconv.Atoi(c.ChildArgs[0])
 		race := len(c.ChildArgs) > 1 && c.ChildArgs[1] == "true"
@@ -227,6 +246,14 @@ func replay(c *vf.Ctx) {
 	case "vn-gate":
 		vnGateChild(c, r.Scenario)
 	case "conc":
+		if r.Round == "count" {
+			// deterministic single-goroutine history against the counting model
+			b, _ := json.Marshal(r.Detail)
+			var cfg cntCfg
+			json.Unmarshal(b, &cfg)
+			(&evEnv{c: c, rep: newReporter(c)}).runCountHist(cfg, true)
+			return
+		}
 		if r.Round == "redundant" {
 			// deterministic single-goroutine history: re-executed in this process
 			b, _ := json.Marshal(r.Detail)
